@@ -182,7 +182,13 @@ class Runner:
         self.next_sid += 1
         if self.is_dict:
             d = {}
-            for k, val in x.items():
+            # key *sets* are the contract (add() checks the set): samples arrive in differing key orders
+            items = list(x.items())
+            if sid % 3 == 1:
+                items.reverse()
+            elif sid % 3 == 2:
+                items = items[1:] + items[:1]
+            for k, val in items:
                 v = V(val)
                 v.sid = sid
                 d[k] = v
